@@ -212,10 +212,22 @@ func checkKey(env *valenv.Env, nd *node, post bool, pk []byte, label string, res
 		res.bad("wire-message-differs", "before the envelope epoch Broadcast must publish the plain SSVMessage encoding", trace, len(wire.data), len(encoded))
 	}
 	// validator, on exactly the published bytes
-	for _, neighbour := range []bool{false, true} {
+	// topics handed to the validator: the published one, its neighbour, and - for the first key of
+	// every subnet each worker meets - every other advertised topic (a validator that accepts a key on
+	// any topic but its own, e.g. one whose number merely ends in the same digits, is caught here)
+	cands := []int{-1, (subnet + 1) % commons.Subnets()}
+	if res.subnets[subnet] == 1 {
+		for t := 0; t < commons.Subnets(); t++ {
+			if t != subnet && t != (subnet+1)%commons.Subnets() {
+				cands = append(cands, t)
+			}
+		}
+	}
+	for _, cand := range cands {
+		neighbour := cand >= 0
 		base := wire.topic
 		if neighbour {
-			base = commons.SubnetTopicID((subnet + 1) % commons.Subnets())
+			base = commons.SubnetTopicID(cand)
 		}
 		full := commons.GetTopicFullName(base)
 		v, rec := env.NewValidator(post) // the clock was frozen once by valenv.New (1 s into the current slot)
@@ -232,7 +244,7 @@ func checkKey(env *valenv.Env, nd *node, post bool, pk []byte, label string, res
 		}
 		notFound := strings.HasSuffix(reason, "topic not found")
 		if neighbour {
-			res.outcomes["validator on neighbouring topic: "+reason]++
+			res.outcomes["validator on another advertised topic: "+reason]++
 			if !notFound {
 				res.bad("validator-accepts-wrong-topic", fmt.Sprintf("validator does not refuse topic %s for a key published on %s (%s): %s", full, wire.topic, label, reason), trace, reason, "reject: topic not found")
 			}
